@@ -395,6 +395,15 @@ static void pg_stmts (pgen_t *g, node_t **where, int n) {
   pg_tail = save;
 }
 
+/* The module data region is one section of several items: `gdata` (bytes), an unnamed item of a wider integer type, an unnamed bss or
+   typed item, unnamed bytes.  The layout is a function of the first data bytes (no generator randomness is consumed): returns 0 = one item,
+   1 = typed middle pieces, 2 = the third piece is bss; c[] = the three cut offsets. */
+static int pg_data_cuts (const prog_t *p, int c[3]) {
+  const uint8_t *d = p->data_init;
+  if (d[0] % 4 == 3) return 0;
+  c[0] = 8 + d[1] % 100; c[1] = c[0] + 1 + d[2] % 60; c[2] = c[1] + 8 + d[3] % 40;
+  return d[0] % 4 == 0 ? 2 : 1;
+}
 static void pg_gen_prog (prog_t *p, uint64_t seed, long idx, unsigned feat, int max_modules) {
   pgen_t G, *g = &G;
   memset (p, 0, sizeof *p); memset (g, 0, sizeof G);
@@ -403,6 +412,7 @@ static void pg_gen_prog (prog_t *p, uint64_t seed, long idx, unsigned feat, int 
   p->nf = (int) vp_range (&g->r, (feat & PF_INLINE_BIAS) ? 3 : 1, getenv ("VP_MAXF") ? atoi (getenv ("VP_MAXF")) : PG_MAXFUNC);
   p->nmodules = (int) vp_range (&g->r, 1, max_modules);
   for (int i = 0; i < PG_BUF; i++) p->data_init[i] = (uint8_t) vp_next (&g->r);
+  { int c[3]; if (pg_data_cuts (p, c) == 2) memset (p->data_init + c[1], 0, (size_t) (c[2] - c[1])); } /* a bss piece holds zeros */
   static const MIR_type_t nt[] = {MIR_T_I64, MIR_T_I64, MIR_T_I64, MIR_T_I8, MIR_T_U8, MIR_T_I16, MIR_T_U16, MIR_T_I32, MIR_T_U32, MIR_T_U64};
   /* nest shape (C04): a chain of small functions, each with its frame allocated first, writing its frame, calling the next one twice and
      reading its frame back; callers stand in front of their callees, so that one inlining pass nests several levels */
@@ -456,6 +466,29 @@ static void P (ptxt_t *t, const char *fmt, ...) {
   va_start (ap, fmt); t->len += vsnprintf (t->s + t->len, t->cap - t->len, fmt, ap); va_end (ap);
 }
 static const char *pg_tn (MIR_type_t t) { static const char *n[] = {"i8", "u8", "i16", "u16", "i32", "u32", "i64", "u64", "f", "d", "ld", "p"}; return n[t]; }
+static void pg_print_data_piece (ptxt_t *t, const prog_t *p, const char *label, int from, int to, int tk) { /* tk: 0 u8, 1 i16, 2 u32, 3 i64 */
+  static const char *tn[] = {"u8", "i16", "u32", "i64"}; static const int sz[] = {1, 2, 4, 8};
+  int n = (to - from) / sz[tk];
+  if (n > 0) {
+    P (t, "%s%s ", label, tn[tk]);
+    for (int i = 0; i < n; i++) {
+      uint64_t v = 0; memcpy (&v, p->data_init + from + i * sz[tk], (size_t) sz[tk]);
+      if (tk == 1) P (t, "%s%d", i ? ", " : "", (int) (int16_t) v); else if (tk == 3) P (t, "%s%lld", i ? ", " : "", (long long) (int64_t) v); else P (t, "%s%llu", i ? ", " : "", (unsigned long long) v);
+    }
+    P (t, "\n"); label = " ";
+  }
+  if (from + n * sz[tk] < to) pg_print_data_piece (t, p, label, from + n * sz[tk], to, 0); /* the rest as bytes */
+}
+static void pg_print_data (ptxt_t *t, const prog_t *p) {
+  int c[3], k = pg_data_cuts (p, c);
+  P (t, "export gdata\n");
+  if (k == 0) { pg_print_data_piece (t, p, "gdata: ", 0, PG_BUF, 0); return; }
+  pg_print_data_piece (t, p, "gdata: ", 0, c[0], 0);
+  pg_print_data_piece (t, p, " ", c[0], c[1], 1 + p->data_init[4] % 3);
+  if (k == 2) P (t, " bss %d\n", c[2] - c[1]); else pg_print_data_piece (t, p, " ", c[1], c[2], 1 + p->data_init[5] % 3);
+  pg_print_data_piece (t, p, " ", c[2], PG_BUF, 0);
+}
+
 static const char pg_rc[] = {'i', 'd', 'f', 'l'};
 static void pg_popnd (ptxt_t *t, const opnd_t *o) {
   if (o->kind == K_REG && o->vt == V_I && o->reg >= PG_ARGREG) P (t, "a%d", o->reg - PG_ARGREG);
@@ -572,7 +605,7 @@ static char *pg_print (MIR_context_t ctx, const prog_t *p) {
   for (int m = 0; m < p->nmodules; m++) {
     P (t, "md%d: module\n", m);
     P (t, "prx: proto i64, i64:tag, i64:a, i64:b\nimport ext_log\n");
-    if (m == 0) { P (t, "export gdata\ngdata: u8 "); for (int i = 0; i < PG_BUF; i++) P (t, "%s%d", i ? ", " : "", p->data_init[i]); P (t, "\n"); }
+    if (m == 0) pg_print_data (t, p);
     else P (t, "import gdata\n");
     for (int fi = 0; fi < p->nf; fi++) {
       const func_t *f = &p->f[fi];
